@@ -183,10 +183,19 @@ package unknown
 //@   ensures err == nil ==> wrote(0)
 //@   ensures err != nil ==> wkept()
 
-//@ func (p *protocol) WriteStructEnd(ctx context.Context) (err error)
+// Struct begin/end are events without bytes in the binary protocol; a protocol that keeps a stack (compact) needs them
+// balanced: an end requires an open begin.
+//@ func (p *protocol) WriteStructBegin(ctx context.Context, name string) (err error)
 //@   trusted
 //@   modifies $wstream
-//@   ensures err == nil ==> wrote(0)
+//@   ensures err == nil ==> wnest(1)
+//@   ensures err != nil ==> wkept()
+
+//@ func (p *protocol) WriteStructEnd(ctx context.Context) (err error)
+//@   trusted
+//@   requires wdepth() > 0
+//@   modifies $wstream
+//@   ensures err == nil ==> wnest(-1)
 //@   ensures err != nil ==> wkept()
 
 //@ func convert(x interface{}) (*protocol, error)
@@ -198,7 +207,7 @@ package unknown
 // target: nothing dropped, duplicated or reordered, at any nesting depth.
 
 //@ func write(oprot *protocol, name string, fieldType int, id int16, fs []byte) (offset int, err error)
-//@   requires oprot != nil
+//@   requires oprot != nil && wdepth() >= 0
 //@   modifies $wstream
 //@   decreases len(fs)
 //@   ensures 0 <= offset && offset <= len(fs)
@@ -212,12 +221,12 @@ package unknown
 //@   loop 2 invariant forall k int :: old(wpos()) <= k && k < wpos() ==> wbyte(k) == nb(wbool(k), fs[k - old(wpos())])
 //@   loop 3 invariant 0 <= i && i <= size && 6 <= offset && offset <= len(fs) && wrote(offset)
 //@   loop 3 invariant forall k int :: old(wpos()) <= k && k < wpos() ==> wbyte(k) == nb(wbool(k), fs[k - old(wpos())])
-//@   loop 4 invariant 0 <= offset && offset <= len(fs) && wrote(offset)
+//@   loop 4 invariant 0 <= offset && offset <= len(fs) && wrote(offset, 1) && wdepth() > 0
 //@   loop 4 invariant forall k int :: old(wpos()) <= k && k < wpos() ==> wbyte(k) == nb(wbool(k), fs[k - old(wpos())])
 //@   loop 4 decreases len(fs) - offset
 
 //@ func (fs *Fields) Write(xprot TProtocol) (err error)
-//@   requires fs != nil
+//@   requires fs != nil && wdepth() >= 0
 //@   modifies $wstream
 //@   ensures err == nil ==> wrote(len(*fs))
 //@   ensures err == nil ==> forall k int :: old(wpos()) <= k && k < wpos() ==> wbyte(k) == nb(wbool(k), (*fs)[k - old(wpos())])
